@@ -382,6 +382,40 @@ theorem fit3Closed_misses_positive_first {Q0 Q1 Q2 H0 H1 H2 : ℝ} (hQ0 : 0 < Q0
     mul_pos (div_pos (by linarith) (Real.rpow_pos_of_pos hQ1 _)) (Real.rpow_pos_of_pos hQ0 _)
   linarith
 
+/-! #### the coefficient memo: fitted to the CURRENT curve -/
+
+/-- the memo is valid when its key cannot alias the list the setter writes: the key is a copy, or the setter rebinds.  Then after
+`curve.points = new` with `new` different from the points the coefficients were fitted to, the memo test misses and the coefficients
+are recomputed — for every heap, curve and new point list -/
+theorem memo_invalidated_by_setter (isCopy rebinds : Bool) (hok : isCopy || rebinds = true) (h : CurveHeap) (hwf : h.cur < h.objs.length)
+    (new : Pts) (hne : new ≠ h.get h.cur) :
+    (h.setPoints rebinds new).memoHit (h.storeKey isCopy) = false := by
+  have hget : h.get h.cur = h.objs[h.cur] := by simp [CurveHeap.get, List.getD, hwf]
+  cases rebinds <;> cases isCopy <;> simp at hok
+  · -- in-place setter, copied key
+    simp only [CurveHeap.setPoints, CurveHeap.storeKey, CurveHeap.memoHit, CurveHeap.get, Bool.false_eq_true, if_false, if_true,
+      decide_eq_false_iff_not]
+    simp only [List.getD, List.getElem?_set_self hwf, Option.getD_some]
+    simpa [CurveHeap.get] using hne
+  · -- rebinding setter, key by reference
+    simp only [CurveHeap.setPoints, CurveHeap.storeKey, CurveHeap.memoHit, CurveHeap.get, Bool.false_eq_true, if_false, if_true,
+      decide_eq_false_iff_not]
+    simp only [List.getD, List.getElem?_append_right (le_refl _), Nat.sub_self, List.getElem?_cons_zero, Option.getD_some,
+      List.getElem?_append_left hwf]
+    simpa [CurveHeap.get, List.getD] using hne
+  · -- rebinding setter, copied key
+    simp only [CurveHeap.setPoints, CurveHeap.storeKey, CurveHeap.memoHit, CurveHeap.get, if_true, decide_eq_false_iff_not]
+    simp only [List.getD, List.getElem?_append_right (le_refl _), Nat.sub_self, List.getElem?_cons_zero, Option.getD_some]
+    simpa [CurveHeap.get, List.getD] using hne
+
+/-- and when BOTH fail (key stored by reference, setter writes in place — seeded change C03-8) the memo always hits: the pump keeps
+the coefficients of the old curve -/
+theorem memo_stale_when_aliased (h : CurveHeap) (new : Pts) : (h.setPoints false new).memoHit (h.storeKey false) = true := by
+  simp [CurveHeap.setPoints, CurveHeap.storeKey, CurveHeap.memoHit]
+
+/-- the current source satisfies the validity condition (ast: the key is `curve.points` itself, the setter rebinds `self._points`) -/
+theorem gen_memo_key_not_aliased : (UpdaterC02.memoKeyIsCopy || UpdaterC02.curveSetterRebinds) = true := by decide
+
 /-- **power pump**: the row is `P + (H_start − H_end)·q·γ` (`γ = 9.81·1000`), so `row = 0` means the pump delivers its power -/
 theorem powerPump_law (env : Env ℝ) (lit : RowLits) (L : Leaves)
     (h0 : eval realOps env (powerPumpRow lit L) = 0) :
